@@ -247,6 +247,49 @@ theorem limitQuery_spec (limit : Option Nat) (hl : ∀ l, limit = some l → l <
       have hint := pyInt_natStr (n := l) (k := 4299) (hl l rfl) (by decide)
       simp [qsFirst, rateLimitKey_eq, hint, Except.map]
 
+/-! ### error paths -/
+
+theorem interpret_dongle_err {serials : List Str} {N : Str} {segs : List Str} {q : Str} {fields : List (Str × Str)} {e : Err}
+    (hq : parseQsl q = .ok fields) (hd : dongleOf serials N = .error e) : interpret serials N segs q = .error e := by
+  unfold interpret
+  simp [hq, hd, bind, Except.bind]
+
+theorem interpret_chan_err {serials : List Str} {N : Str} {segs : List Str} {q : Str} {fields : List (Str × Str)} {devid : Nat} {e : Err}
+    (hq : parseQsl q = .ok fields) (hd : dongleOf serials N = .ok devid) (hc : channelOfSegs segs = .error e) :
+    interpret serials N segs q = .error e := by
+  unfold interpret
+  rcases segs with _ | ⟨c, t⟩ <;> simp only [channelOfSegs] at hc <;> simp [hq, hd, hc, bind, Except.bind, pure, Except.pure]
+
+theorem interpret_addr_err {serials : List Str} {N : Str} {segs : List Str} {q : Str} {fields : List (Str × Str)} {devid : Nat} {ch : Int} {e : Err}
+    (hq : parseQsl q = .ok fields) (hd : dongleOf serials N = .ok devid) (hc : channelOfSegs segs = .ok ch)
+    (ha : addrOfSegs segs = .error e) : interpret serials N segs q = .error e := by
+  unfold interpret
+  rcases segs with _ | ⟨c, _ | ⟨r, _ | ⟨a, t⟩⟩⟩ <;> simp only [channelOfSegs, addrOfSegs] at hc ha <;>
+    simp [hq, hd, hc, ha, bind, Except.bind, pure, Except.pure]
+
+theorem unpack5_long (b0 b1 b2 b3 b4 b5 : UInt8) (r : List UInt8) :
+    unpack [.B, .B, .B, .B, .B] (b0 :: b1 :: b2 :: b3 :: b4 :: b5 :: r) = .error .structError := by
+  simp [unpack, Code.size, Code.takesVal, unpackOne, leVal, bind, Except.bind, pure, Except.pure]
+
+theorem pad_str_long (A : Str) (h : 10 ≤ A.length) : pyFormat Gen.C20.addrPadFmt [.str A] = .ok A := by
+  rw [pad_str]; simp [Nat.sub_eq_zero_of_le h]
+
+/-- an address of 11 or more hex digits is rejected: odd length by `unhexlify`, even length by `struct.unpack` -/
+theorem addrOf_long (A : Str) (h11 : 11 ≤ A.length) (hh : ∀ c ∈ A, IsHex c) :
+    addrOf A = .error (if A.length % 2 = 1 then .valueError else .structError) := by
+  unfold addrOf addrFrom
+  rw [pad_str_long A (by omega)]
+  by_cases hodd : A.length % 2 = 1
+  · have := ofHexChars_odd (A.length / 2) A (by omega)
+    simp [unhexlify, this, hodd]
+  · have hlen : A.length = 2 * (A.length / 2) := by omega
+    have h1 := ofHexChars_even (A.length / 2) A hlen hh
+    have h2 := hexPairs_length (A.length / 2) A hlen
+    simp only [unhexlify, h1, addrUnpack_spec, hodd, if_false]
+    have h6 : 6 ≤ ((hexPairs A).map UInt8.ofNat).length := by simp [h2]; omega
+    match hm : (hexPairs A).map UInt8.ofNat, h6 with
+    | b0 :: b1 :: b2 :: b3 :: b4 :: b5 :: r, _ => simp [unpack5_long]
+
 /-! ### the property theorems (stated in Props/C20) -/
 
 theorem Dongle.chars {serials : List Str} {s : Str} {i : Nat} (h : Dongle serials s i) : ∀ c ∈ s, NetlocChar c :=
@@ -320,5 +363,131 @@ theorem parse_print_query_options_aux (serials : List Str) (dongle : Str) (devid
   have := parse_fields hd.chars hd.parses hs false (query := some _) (fun q hq => by injection hq with hq; subst hq; exact queryText_chars _ hok)
     (fields := _) hp hc ha hlim
   simpa [rateOfSegs, rateOf_text] using this
+
+theorem channelDefault_eq : Gen.C20.channelDefault = 2 := by decide
+theorem datarateDefault_eq : Gen.C20.datarateDefault = 2 := by decide
+theorem addressDefault_eq : Gen.C20.addressDefault = [0xE7, 0xE7, 0xE7, 0xE7, 0xE7] := by decide
+
+theorem chan_field (ch : Nat) (_hch : ch ≤ 125) : natStr ch ≠ [] ∧ ∀ c ∈ natStr ch, FieldChar c :=
+  ⟨natStr_ne_nil ch, fun c hc => (digit_chars (natStr_digits ch c hc)).1.1⟩
+
+theorem defaults_aux (serials : List Str) (dongle : Str) (devid : Nat) (hd : Dongle serials dongle devid)
+    (ch : Nat) (hch : ch ≤ 125) (rate : Rate) (limit : Option Nat) (hl : ∀ l, limit = some l → l < 10 ^ 4300) (trailing : Bool) :
+    parseUri serials (mkUri dongle [] trailing (limitQuery limit)) =
+      .ok ⟨devid, 2, 2, [0xE7, 0xE7, 0xE7, 0xE7, 0xE7], limit.map Int.ofNat⟩ ∧
+    parseUri serials (mkUri dongle [natStr ch] trailing (limitQuery limit)) =
+      .ok ⟨devid, ch, 2, [0xE7, 0xE7, 0xE7, 0xE7, 0xE7], limit.map Int.ofNat⟩ ∧
+    parseUri serials (mkUri dongle [natStr ch, rate.text] trailing (limitQuery limit)) =
+      .ok ⟨devid, ch, rate.value, [0xE7, 0xE7, 0xE7, 0xE7, 0xE7], limit.map Int.ofNat⟩ := by
+  obtain ⟨hq, ⟨fields, hf⟩, hlim⟩ := limitQuery_spec limit hl
+  have hint : pyInt (natStr ch) = .ok (ch : Int) := pyInt_natStr (n := ch) (k := 2) (by omega) (by decide)
+  refine ⟨?_, ?_, ?_⟩
+  · have := parse_fields hd.chars hd.parses (segs := []) (by simp) trailing hq hf (ch := Gen.C20.channelDefault)
+      (addr := Gen.C20.addressDefault) rfl rfl hlim
+    simpa [rateOfSegs, channelDefault_eq, datarateDefault_eq, addressDefault_eq] using this
+  · have hs : ∀ s ∈ [natStr ch], s ≠ [] ∧ ∀ c ∈ s, FieldChar c := by
+      intro s hs; simp at hs; subst hs; exact chan_field ch hch
+    have := parse_fields hd.chars hd.parses hs trailing hq hf (ch := ch) (addr := Gen.C20.addressDefault) hint rfl hlim
+    simpa [rateOfSegs, datarateDefault_eq, addressDefault_eq] using this
+  · have hs : ∀ s ∈ [natStr ch, rate.text], s ≠ [] ∧ ∀ c ∈ s, FieldChar c := by
+      intro s hs
+      simp only [List.mem_cons, List.mem_nil_iff, or_false] at hs
+      rcases hs with rfl | rfl
+      · exact chan_field ch hch
+      · exact rate_chars rate
+    have := parse_fields hd.chars hd.parses hs trailing hq hf (ch := ch) (addr := Gen.C20.addressDefault) hint rfl hlim
+    simpa [rateOfSegs, rateOf_text, addressDefault_eq] using this
+
+theorem full_fields (ch : Nat) (hch : ch ≤ 125) (rate : Rate) (A : Str) (hA1 : 1 ≤ A.length) (hfc : ∀ c ∈ A, FieldChar c) :
+    ∀ s ∈ [natStr ch, rate.text, A], s ≠ [] ∧ ∀ c ∈ s, FieldChar c := by
+  intro s hs
+  simp only [List.mem_cons, List.mem_nil_iff, or_false] at hs
+  rcases hs with rfl | rfl | rfl
+  · exact chan_field ch hch
+  · exact rate_chars rate
+  · exact ⟨by intro e; subst e; simp at hA1, hfc⟩
+
+theorem trailing_slash_aux (serials : List Str) (dongle : Str) (devid : Nat) (hd : Dongle serials dongle devid)
+    (ch : Nat) (hch : ch ≤ 125) (rate : Rate)
+    (A : Str) (hA1 : 1 ≤ A.length) (hA10 : A.length ≤ 10) (hhex : ∀ c ∈ A, IsHex c)
+    (limit : Option Nat) (hl : ∀ l, limit = some l → l < 10 ^ 4300) :
+    parseUri serials (mkUri dongle [natStr ch, rate.text, A] true (limitQuery limit)) =
+      .ok ⟨devid, ch, rate.value, beBytes5 (hexValue A), limit.map Int.ofNat⟩ := by
+  obtain ⟨hq, ⟨fields, hf⟩, hlim⟩ := limitQuery_spec limit hl
+  have hs := full_fields ch hch rate A hA1 (fun c hc => (hex_chars (hhex c hc)).1.1)
+  have hc : channelOfSegs [natStr ch, rate.text, A] = .ok (ch : Int) :=
+    pyInt_natStr (n := ch) (k := 2) (by omega) (by decide)
+  have ha : addrOfSegs [natStr ch, rate.text, A] = .ok (beBytes5 (hexValue A)) := addrOf_hex A hA1 hA10 hhex
+  have := parse_fields hd.chars hd.parses hs true hq hf hc ha hlim
+  simpa [rateOfSegs, rateOf_text] using this
+
+theorem no_rate_limit_aux (serials : List Str) (dongle : Str) (devid : Nat) (hd : Dongle serials dongle devid)
+    (ch : Nat) (hch : ch ≤ 125) (rate : Rate)
+    (A : Str) (hA1 : 1 ≤ A.length) (hA10 : A.length ≤ 10) (hhex : ∀ c ∈ A, IsHex c)
+    (opts : List (Str × Str)) (hopts : ∀ kv ∈ opts, OptOk kv ∧ kv.1 ≠ "rate_limit".toList) :
+    parseUri serials (mkUri dongle [natStr ch, rate.text, A] false (some (queryText opts))) =
+      .ok ⟨devid, ch, rate.value, beBytes5 (hexValue A), none⟩ := by
+  have hok : ∀ kv ∈ opts, OptOk kv := fun kv h => (hopts kv h).1
+  have hp := parseQsl_queryText _ hok
+  have hfirst : qsFirst "rate_limit".toList opts = none := by
+    induction opts with
+    | nil => rfl
+    | cons kv r ih =>
+      have hne := (hopts kv (by simp)).2
+      obtain ⟨k, v⟩ := kv
+      simp only [qsFirst, hne, if_false]
+      exact ih (fun x hx => hopts x (by simp [hx])) (fun x hx => hok x (by simp [hx])) (parseQsl_queryText _ (fun x hx => hok x (by simp [hx])))
+  have hlim : rateLimitOf (queryText opts) = .ok none := by
+    rw [rateLimitOf_of_fields hp, rateLimitKey_eq, hfirst]
+  have hs := full_fields ch hch rate A hA1 (fun c hc => (hex_chars (hhex c hc)).1.1)
+  have hc : channelOfSegs [natStr ch, rate.text, A] = .ok (ch : Int) :=
+    pyInt_natStr (n := ch) (k := 2) (by omega) (by decide)
+  have ha : addrOfSegs [natStr ch, rate.text, A] = .ok (beBytes5 (hexValue A)) := addrOf_hex A hA1 hA10 hhex
+  have := parse_fields hd.chars hd.parses hs false (query := some _)
+    (fun q hq => by injection hq with hq; subst hq; exact queryText_chars _ hok) (fields := _) hp hc ha hlim
+  simpa [rateOfSegs, rateOf_text] using this
+
+theorem long_address_aux (serials : List Str) (dongle : Str) (devid : Nat) (hd : Dongle serials dongle devid)
+    (ch : Nat) (hch : ch ≤ 125) (rate : Rate) (A : Str) (h11 : 11 ≤ A.length) (hhex : ∀ c ∈ A, IsHex c)
+    (limit : Option Nat) (hl : ∀ l, limit = some l → l < 10 ^ 4300) :
+    parseUri serials (printUri dongle ch rate A limit) = .error (if A.length % 2 = 1 then .valueError else .structError) := by
+  obtain ⟨hq, ⟨fields, hf⟩, _⟩ := limitQuery_spec limit hl
+  have hs := full_fields ch hch rate A (by omega) (fun c hc => (hex_chars (hhex c hc)).1.1)
+  have hc : channelOfSegs [natStr ch, rate.text, A] = .ok (ch : Int) :=
+    pyInt_natStr (n := ch) (k := 2) (by omega) (by decide)
+  unfold printUri
+  rw [parseUri_mkUri serials dongle _ false _ hd.chars hs hq]
+  exact interpret_addr_err hf hd.parses hc (addrOf_long A h11 hhex)
+
+theorem bad_channel_aux (serials : List Str) (dongle : Str) (devid : Nat) (hd : Dongle serials dongle devid)
+    (segs : List Str) (hs : ∀ s ∈ segs, s ≠ [] ∧ ∀ c ∈ s, FieldChar c) (trailing : Bool)
+    (limit : Option Nat) (hl : ∀ l, limit = some l → l < 10 ^ 4300)
+    (C : Str) (hC : C ≠ [] ∧ ∀ c ∈ C, FieldChar c) (e : Err) (hbad : pyInt C = .error e) :
+    parseUri serials (mkUri dongle (C :: segs) trailing (limitQuery limit)) = .error e := by
+  obtain ⟨hq, ⟨fields, hf⟩, _⟩ := limitQuery_spec limit hl
+  have hs' : ∀ s ∈ C :: segs, s ≠ [] ∧ ∀ c ∈ s, FieldChar c := by
+    intro s h; rcases List.mem_cons.mp h with rfl | h
+    · exact hC
+    · exact hs s h
+  rw [parseUri_mkUri serials dongle _ trailing _ hd.chars hs' hq]
+  exact interpret_chan_err hf hd.parses hbad
+
+theorem unknown_dongle_aux (serials : List Str) (N : Str) (hN : ∀ c ∈ N, NetlocChar c)
+    (hnot : ¬ (N.length < 10 ∧ N ≠ [] ∧ ∀ c ∈ N, isDigit c = true)) (hidx : indexOf? (N.map upperAscii) serials = none)
+    (segs : List Str) (hs : ∀ s ∈ segs, s ≠ [] ∧ ∀ c ∈ s, FieldChar c) (trailing : Bool)
+    (limit : Option Nat) (hl : ∀ l, limit = some l → l < 10 ^ 4300) :
+    parseUri serials (mkUri N segs trailing (limitQuery limit)) = .error .exception := by
+  obtain ⟨hq, ⟨fields, hf⟩, _⟩ := limitQuery_spec limit hl
+  rw [parseUri_mkUri serials N _ trailing _ hN hs hq]
+  apply interpret_dongle_err hf
+  have : (decide (N.length < Gen.C20.netlocLenBound) && (!N.isEmpty && N.all isDigit)) = false := by
+    rw [netlocLenBound_eq]
+    cases hb : (decide (N.length < 10) && (!N.isEmpty && N.all isDigit)) with
+    | false => rfl
+    | true =>
+      exfalso; apply hnot
+      simp only [Bool.and_eq_true, decide_eq_true_eq, Bool.not_eq_true', List.all_eq_true] at hb
+      exact ⟨hb.1, by intro e; subst e; simp at hb, hb.2.2⟩
+  simp [dongleOf, this, hidx]
 
 end CfVerif.C20
